@@ -42,6 +42,13 @@ Theorem C20_static_check_sound :
 Proof. intros V interp p st H. split; [apply run_frame; exact H|apply run_log; exact H]. Qed.
 Print Assumptions C20_static_check_sound.
 
+(* the prediction handed to the correspondence (canonical run, one buffer per argument / earlier result)
+   lists no written caller or earlier buffer, in any configuration *)
+Theorem C20_predicted_writes_empty :
+  forall e c, valid_cfg (dims e) c -> written_initial true e c = [].
+Proof. exact predicted_writes_empty. Qed.
+Print Assumptions C20_predicted_writes_empty.
+
 (* the configuration space: its size, and the enumeration used by the finite check is complete *)
 Theorem C20_config_space :
   total_cfgs = 26472%Z
